@@ -1,5 +1,5 @@
 """C10 -- a failing user function is never cached and leaves dds and the store clean."""
-from contracts import api
+from contracts import api, annotations
 from ._api_common import TRUSTED_API, owner, _AnyApiClause
 
 ID = "C10"
@@ -7,7 +7,7 @@ LEVEL = "proof"
 EXPLANATION = (
     "Exceptional postconditions (signals clauses) of _eval (nested keep), _eval (top level) and _eval_new_ctx are proved on every path of the real AST: "
     "an exception raised by the user function propagates as the same object, no store_blob event follows the failing call, no sync_paths event occurs, the path map is unchanged, "
-    "the store invariant INV is preserved (completed sub-results are genuine) and the `finally` block resets _eval_ctx to None without raising, so the next evaluation satisfies _eval_new_ctx's precondition."
+    "the store invariant INV is preserved (completed sub-results are genuine) and the `finally` block resets _eval_ctx to None without raising, so the next evaluation satisfies _eval_new_ctx's precondition. The wrappers installed by @data_function / @dds_function are proved to pass whatever keep raises untouched and to refuse arguments before anything runs."
 )
 TRUSTED = TRUSTED_API
 ASSUMPTIONS = ["A-USER", "A-DET", "A-LOG", "A-FLOAT", "A-ALIAS"]
@@ -18,7 +18,7 @@ owns = owner("C10")
 
 
 def specs():
-    return [c() for c in api.SPECS]
+    return [c() for c in api.SPECS] + [c() for c in annotations.SPECS]
 
 
 def lemmas():
